@@ -165,7 +165,8 @@ Section RP.
     assert (H64 : 51 + w_dpad o < two64) by (unfold two63, two64 in *; lia).
     pose proof Hfit as Hfit'. unfold ResumeInv.fits in Hfit'.
     assert (Hpos : pos_of st = hsz + blen (enc_sections st)) by reflexivity.
-    destruct Hpar as [Hhdr [r0 Hprag] Hmaxh Hmaxh0 Hcid].
+    destruct Hpar as [Hhdr [r0 Hprag] Hmaxh Hcid].
+    assert (Hp10 : 10 <= w_maxh o) by (pose proof (hdr_ge_10 nilroots roots); unfold ResumeInv.hdr in *; lia).
     assert (Hpre : blen (pragma ++ H ++ zerosN (w_dpad o)) = 51 + w_dpad o)
       by (rewrite !blen_app, blen_pragma, blen_zerosN; lia).
     assert (Hpre0 : blen (pragma ++ zerosN 40 ++ zerosN (w_dpad o)) = 51 + w_dpad o)
@@ -199,11 +200,11 @@ Section RP.
       - rewrite blen_ld_eq; fold hsz; lia.
       - rewrite app_length; pose proof (enc_sections_len st) as Hl; unfold block in *; lia. }
     unfold resume.
-    assert (Hrd0 : read_header hdrdec default_maxh (hfile H st) =
+    assert (Hrd0 : read_header hdrdec (w_maxh o) (hfile H st) =
                    Ok (r0, 2, H ++ zerosN (w_dpad o) ++ ld hdr ++ enc_sections st, ld_size (blen pragma_body))).
     { unfold hfile. rewrite pragma_is_ld at 1.
-      apply (read_header_ld hdrdec default_maxh pragma_body r0 2);
-        [exact Hprag|rewrite blen_pragma_body; unfold default_maxh; lia|rewrite blen_pragma_body; unfold two63; lia]. }
+      apply (read_header_ld hdrdec (w_maxh o) pragma_body r0 2);
+        [exact Hprag|rewrite blen_pragma_body; exact Hp10|rewrite blen_pragma_body; unfold two63; lia]. }
     rewrite Hrd0. rewrite Hv2. cbn [N.eqb Pos.eqb andb orb negb].
     assert (Hdp : drop pragma_size (hfile H st) = H ++ zerosN (w_dpad o) ++ ld hdr ++ enc_sections st)
       by (unfold hfile; apply drop_app_len; reflexivity).
